@@ -72,6 +72,7 @@ type uStep struct {
 	Raw   []int    `json:"raw"` // raw bytes for malformed-input steps
 	Par   []uStep  `json:"par"` // steps to run concurrently (a == "par")
 	Rep   int      `json:"rep"` // repeat the step this many times (sequence numbers and ids advance)
+	Win   int      `json:"win"` // par + wrtp + rep: closed-loop window (packets written ahead of the transport)
 	Seq   []uStep  `json:"seq"` // a == "seq": run these steps in order (one role of a concurrent program)
 	Inc   int      `json:"inc"` // sequence-number increment per repetition (default 1; 0 is written as -1)
 	Gap   int      `json:"gap"` // microseconds to sleep between repetitions
@@ -186,6 +187,9 @@ type uEnv struct {
 	parkRTCP     atomic.Pointer[chan struct{}] // non-nil: every transport-side RTCP write parks until the channel is closed
 	rtcpBusy     atomic.Int32    // RTCP writes currently inside a slow / parked transport
 	slowRTCP     atomic.Int64    // nanoseconds the transport-side RTCP writer takes per write (0: returns at once)
+	slowDump     atomic.Int64    // nanoseconds the packet dump formatter waits before it looks at a packet
+	wireRTPn     atomic.Int64    // RTP packets that have reached the transport-side writers
+	appRTPn      atomic.Int64    // RTP packets the application has written (par steps with a window)
 	reuseHdr     *rtp.Header     // C13, reused run: the one header object the application writes all its packets from
 	bindGen      map[uint32]int  // how many transport-side RTP writers have been handed out per local stream (under mu)
 	statsGetter  stats.Getter
@@ -278,6 +282,9 @@ func (e *uEnv) dumpRTPText(pkt *rtp.Packet, _ interceptor.Attributes) string {
 }
 
 func (e *uEnv) dumpRTP(pkt *rtp.Packet, _ interceptor.Attributes) ([]byte, error) {
+	if d := e.slowDump.Load(); d > 0 { // a slow formatter / sink: the packet is looked at only after a while
+		time.Sleep(time.Duration(d))
+	}
 	if e.quiet {
 		e.mu.Lock()
 		e.emis = append(e.emis, uEmis("dump", &pkt.Header, pkt.Payload, pkt.PayloadType == 96))
@@ -390,6 +397,9 @@ func (e *uEnv) factory(m uMember) (interceptor.Factory, error) { //nolint:cyclop
 		return f, err
 	case "pdrecv":
 		sink := &uRaceBuf{}
+		if ms := uOpt(m, "slowdump", 0); ms > 0 {
+			e.slowDump.Store(int64(ms) * int64(time.Millisecond))
+		}
 		if uOpt(m, "text", 0) != 0 { // text formatter only (no binary formatter configured)
 			return packetdump.NewReceiverInterceptor(packetdump.RTPWriter(sink), packetdump.RTCPWriter(sink),
 				packetdump.RTPFormatter(e.dumpRTPText))
@@ -399,6 +409,9 @@ func (e *uEnv) factory(m uMember) (interceptor.Factory, error) { //nolint:cyclop
 			packetdump.RTPBinaryFormatter(e.dumpRTP))
 	case "pdsend":
 		sink := &uRaceBuf{}
+		if ms := uOpt(m, "slowdump", 0); ms > 0 {
+			e.slowDump.Store(int64(ms) * int64(time.Millisecond))
+		}
 		if uOpt(m, "text", 0) != 0 {
 			return packetdump.NewSenderInterceptor(packetdump.RTPWriter(sink), packetdump.RTCPWriter(sink),
 				packetdump.RTPFormatter(e.dumpRTPText))
@@ -544,6 +557,7 @@ func (e *uEnv) wireRTP(s uint32) interceptor.RTPWriter {
 	}
 
 	return interceptor.RTPWriterFunc(func(h *rtp.Header, pl []byte, _ interceptor.Attributes) (int, error) {
+		e.wireRTPn.Add(1)
 		e.mu.Lock()
 		defer e.mu.Unlock()
 		if e.failStreams[s] { // this stream's transport is gone: every write fails
@@ -1468,9 +1482,21 @@ func uRunX(t *testing.T, sc *uScript, out *vfWriter, scribble, quiet bool, rb *u
 						n = 1
 					}
 					for k := 0; k < n; k++ {
+						if sub.Win > 0 && sub.A == "wrtp" {
+							// closed loop: at most Win packets are written ahead of what has reached the transport, so a pacing
+							// member works against a small STANDING backlog - its queue is never empty, never long
+							for dl := time.Now().Add(2 * time.Second); e.appRTPn.Load()-e.wireRTPn.Load() >= int64(sub.Win) && time.Now().Before(dl); {
+								time.Sleep(20 * time.Microsecond)
+							}
+							e.appRTPn.Add(1)
+						}
 						res[i] = exec(&sub)
 						if res[i]["blocked"] == true || res[i]["panic"] != "" {
 							break
+						}
+						if sub.A == "heap" { // a heap sample taken WHILE the other roles run: logged at once, one event per sample
+							e.emit(res[i])
+							res[i] = nil
 						}
 						inc := sub.Inc
 						if inc == 0 {
@@ -1491,6 +1517,9 @@ func uRunX(t *testing.T, sc *uScript, out *vfWriter, scribble, quiet bool, rb *u
 			}
 			wg.Wait()
 			for _, r := range res {
+				if r == nil {
+					continue
+				}
 				if r["busy"] == true {
 					ev["busy"] = true
 				}
@@ -1547,7 +1576,9 @@ func uRunX(t *testing.T, sc *uScript, out *vfWriter, scribble, quiet bool, rb *u
 		} else {
 			sub, _ := ev["wire"].([]vfM)
 			for _, r := range sub {
-				e.emit(r)
+				if r != nil {
+					e.emit(r)
+				}
 			}
 		}
 		if ev["blocked"] == true {
